@@ -252,45 +252,73 @@ variable {α : Type} (parse : α → Except PyErr ListEntry) (path : PPath)
 /-- a line the parser rejects is reported with the parser's exception, never dropped -/
 theorem listStep_error (line : α) (e : PyErr) (h : parse line = .error e) :
     listStep parse path line = .error e := by
-  simp [listStep, h, bind, Except.bind]
+  simp [listStep, listStepWith, h, bind, Except.bind]
 
 /-- `.` and `..` (after `PurePosixPath` normalisation) are skipped -/
 theorem listStep_dot (line : α) (name : PPath) (info : Info) (h : parse line = .ok (name, info))
     (hd : name.str = ['.'] ∨ name.str = dotdot) : listStep parse path line = .ok none := by
-  simp [listStep, h, bind, Except.bind, hd, pure, Except.pure]
+  simp [listStep, listStepWith, h, bind, Except.bind, hd, pure, Except.pure]
 
-/-- any other entry that has a `type` fact is yielded as `path / name` -/
+/-- any other entry that has a `type` fact is yielded as `path / name` (however the fact is read) -/
+theorem listStepWith_entry (b : Bool) (line : α) (name : PPath) (info : Info) (v : Str)
+    (h : parse line = .ok (name, info)) (hd : ¬ (name.str = ['.'] ∨ name.str = dotdot))
+    (ht : dictGet info "type".toList = .ok v) :
+    listStepWith b parse path line = .ok (some (path.join name, info)) := by
+  unfold listStepWith
+  simp only [h, bind, Except.bind, pure, Except.pure]
+  rw [if_neg hd]
+  cases b
+  · simp
+  · simp only [↓reduceIte, ht]
+
 theorem listStep_entry (line : α) (name : PPath) (info : Info) (v : Str)
     (h : parse line = .ok (name, info)) (hd : ¬ (name.str = ['.'] ∨ name.str = dotdot))
     (ht : dictGet info "type".toList = .ok v) :
-    listStep parse path line = .ok (some (path.join name, info)) := by
-  unfold listStep
-  simp only [h, bind, Except.bind, pure, Except.pure]
-  rw [if_neg hd, ht]
+    listStep parse path line = .ok (some (path.join name, info)) :=
+  listStepWith_entry parse path _ line name info v h hd ht
 
-/-- an entry without a `type` fact makes `list()` raise KeyError (`info["type"]`) -/
-theorem listStep_notype (line : α) (name : PPath) (info : Info)
+/-- with the subscript read (`info["type"]`) an entry without a `type` fact makes `list()` raise KeyError -/
+theorem listStepWith_true_notype (line : α) (name : PPath) (info : Info)
     (h : parse line = .ok (name, info)) (hd : ¬ (name.str = ['.'] ∨ name.str = dotdot))
     (ht : dictGet info "type".toList = .error .KeyError) :
-    listStep parse path line = .error .KeyError := by
-  unfold listStep
+    listStepWith true parse path line = .error .KeyError := by
+  unfold listStepWith
   simp only [h, bind, Except.bind, pure, Except.pure]
-  rw [if_neg hd, ht]
+  rw [if_neg hd]
+  simp only [↓reduceIte, ht]
+
+/-- with the `.get("type")` read every entry the parser accepts and that is not a dot entry is yielded -/
+theorem listStepWith_false_entry (line : α) (name : PPath) (info : Info)
+    (h : parse line = .ok (name, info)) (hd : ¬ (name.str = ['.'] ∨ name.str = dotdot)) :
+    listStepWith false parse path line = .ok (some (path.join name, info)) := by
+  unfold listStepWith
+  simp only [h, bind, Except.bind, pure, Except.pure]
+  rw [if_neg hd]
+  simp
 
 theorem dictGet_errs (d : Info) (k : Str) : ErrIn (· = .KeyError) (dictGet d k) := by
   unfold dictGet; split
   · exact ErrIn.ok _
   · exact ErrIn.error rfl
 
-/-- the exceptions of one step are the parser's, or KeyError -/
-theorem listStep_errs {P : PyErr → Prop} (hp : ∀ l, ErrIn P (parse l)) (hK : P .KeyError) (line : α) :
-    ErrIn P (listStep parse path line) := by
-  unfold listStep
+/-- the exceptions of one step are the parser's, or (subscript read only) KeyError -/
+theorem listStepWith_errs (b : Bool) {P : PyErr → Prop} (hp : ∀ l, ErrIn P (parse l))
+    (hK : b = true → P .KeyError) (line : α) :
+    ErrIn P (listStepWith b parse path line) := by
+  unfold listStepWith
   refine ErrIn.bind (hp line) (fun a => ?_)
   split
   split
   · exact ErrIn.pure _
-  · exact ErrIn.bind ((dictGet_errs _ _).mono (fun e he => he ▸ hK)) (fun _ => ErrIn.pure _)
+  · split
+    · rename_i hb
+      exact ErrIn.bind ((dictGet_errs _ _).mono (fun e he => he ▸ hK hb)) (fun _ => ErrIn.pure _)
+    · exact ErrIn.pure _
+
+theorem listStep_errs {P : PyErr → Prop} (hp : ∀ l, ErrIn P (parse l))
+    (hK : Generated.listTypeLookupRaises = true → P .KeyError) (line : α) :
+    ErrIn P (listStep parse path line) :=
+  listStepWith_errs parse path _ hp hK line
 
 /-- a listing succeeds exactly when every line's step succeeds: no line is lost to an exception -/
 theorem listLines_ok_iff (ls : List α) :
@@ -327,7 +355,8 @@ theorem listLines_first_error (pre : List α) (l : α) (post : List α) (e : PyE
     have := ih (fun y hy => hpre y (by simp [hy]))
     simp [listLines, hx, this, bind, Except.bind]
 
-theorem listLines_errs {P : PyErr → Prop} (hp : ∀ l, ErrIn P (parse l)) (hK : P .KeyError) (ls : List α) :
+theorem listLines_errs {P : PyErr → Prop} (hp : ∀ l, ErrIn P (parse l))
+    (hK : Generated.listTypeLookupRaises = true → P .KeyError) (ls : List α) :
     ErrIn P (listLines parse path ls) := by
   induction ls with
   | nil => exact ErrIn.pure _
